@@ -18,14 +18,19 @@ from . import integ_common as ic
 
 PROP = "C06"
 LEAN_MODULES = ["MiciVerif.Props.C06"]
-LEAN_EXTRA = ["MiciVerif.Model.Integrators", "MiciVerif.Proto"]
+LEAN_EXTRA = ["MiciVerif.Model.Integrators", "MiciVerif.Lemmas.IntegratorsExec", "MiciVerif.Proto", "MiciVerif.Model.IntegratorsImplicit", "MiciVerif.Model.IntegratorsTangent"]
 
 
 # ---------------------------------------------------------------------------------------
 # FILLED IN BY LEAN-SIDE AUTHOR
-def correspondence(ctx):  # noqa: ARG001
-    """Model-vs-implementation comparison (Lean driver).  FILLED IN BY LEAN-SIDE AUTHOR."""
-    return
+def correspondence(ctx):
+    """Lean model vs real integrators: coefficient lists (exact) and single steps for several step sizes."""
+    from . import integ_corr
+
+    rng = common.rng_for(ctx, 1)
+    integ_corr.coefficient_cases(ctx, rng, ctx.n(60, 600))
+    integ_corr.step_cases(ctx, rng, ctx.n(45, 400), eps_list=[0.5, 0.25, 0.125, 0.0625], tag="steps")
+    integ_corr.implicit_cases(ctx, rng, ctx.n(30, 300))
 
 
 # ---------------------------------------------------------------------------------------
